@@ -79,6 +79,47 @@ func genC18(t *rapid.T) *c18Case {
 		}
 		c.Requests = append(c.Requests, p)
 	}
+	// steered shape: a directory is requested next to a link whose target lies inside
+	// that directory and is itself a link leading out of it again - whatever was
+	// resolved first must not hide what the second request still has to follow
+	if rapid.IntRange(0, 5).Draw(t, "nested") == 0 {
+		d := rapid.SampledFrom([]string{"a", "b", "d"}).Draw(t, "n.dir")
+		inner := rapid.SampledFrom([]string{"l", "m", "x"}).Draw(t, "n.inner")
+		top := rapid.SampledFrom([]string{"w", "-o", "$c", "l"}).Draw(t, "n.top")
+		data := rapid.SampledFrom([]string{"c", "m", "x"}).Draw(t, "n.data")
+		if top == d || data == d || data == top {
+			top, data = "w", "c"
+		}
+		keep := c.Tree.Nodes[:0:0]
+		for _, n := range c.Tree.Nodes {
+			drop := false
+			for _, q := range []string{d, top, data} {
+				if n.Path == q || strings.HasPrefix(n.Path, q+"/") {
+					drop = true
+				}
+			}
+			if !drop {
+				keep = append(keep, n)
+			}
+		}
+		keep = append(keep,
+			h.Node{Path: d, Kind: h.KDir, Perm: 0o755},
+			h.Node{Path: d + "/" + inner, Kind: h.KSymlink, Perm: 0o777, Target: rapid.SampledFrom([]string{"/" + data, "../" + data}).Draw(t, "n.innertarget")},
+			h.Node{Path: d + "/other", Kind: h.KFile, Perm: 0o644, Size: 3, Seed: 77},
+			h.Node{Path: top, Kind: h.KSymlink, Perm: 0o777, Target: rapid.SampledFrom([]string{d + "/" + inner, "/" + d + "/" + inner, "./" + d + "/" + inner}).Draw(t, "n.toptarget")},
+			h.Node{Path: data, Kind: h.KFile, Perm: 0o644, Size: 5, Seed: 78},
+		)
+		c.Tree.Nodes = keep
+		c.Tree.Normalize()
+		reqs := []string{d, top}
+		if rapid.Bool().Draw(t, "n.swap") {
+			reqs = []string{top, d}
+		}
+		if rapid.Bool().Draw(t, "n.keepothers") && len(c.Requests) > 0 {
+			reqs = append(reqs, c.Requests[0])
+		}
+		c.Requests = reqs
+	}
 	c.MemSrc = rapid.Bool().Draw(t, "memsrc")
 	return c
 }
